@@ -327,7 +327,9 @@ example :
         (fun o => (o.1, o.2.1.preferred_subband, o.2.2)) = some (some 14, none, 7) := by
   refine ⟨⟨by decide, by decide, by decide, by decide⟩, ?_, ?_, ?_, ?_⟩ <;> decide +kernel
 
-/- NOT REACHED (full statement, kept visible): the whole data-frame branch and the whole method on a fixed plan,
+/- (builder D2: `JcOk` is discharged in `Props/TieA/JoinWalk.lean` — `C09.tieA_join_channels_walk`; what follows about the
+walk is history.)
+NOT REACHED (full statement, kept visible): the whole data-frame branch and the whole method on a fixed plan,
 
 theorem tieA_fixed_select_tx_channel {σ} (g : Rng σ) (ops : Gen.PlanSelectFn.JcOps σ)
     (rs : RegionState) (p : Gen.PlanSelectFn.FixedChannelPlan) (hplan : rs.plan = .fix (fixOf p))
